@@ -3,6 +3,7 @@
 From Coq Require Import NArith List Bool.
 Import ListNotations.
 Require Import UV.C06.Model UV.C06.Proofs UV.C18.Model UV.C18.Proofs UV.C18.Filter UV.C18.FilterProofs.
+Require UV.Mcount.Model UV.Mcount.Forest UV.Mcount.ScriptCb.
 Local Open Scope N_scope.
 
 (* uftrace_begin once; then one uftrace_entry/uftrace_exit per line of `replay --no-merge` for the
@@ -65,3 +66,21 @@ Theorem C18_leaky_exit_refuted :
   filter (cb_keep [3]) (map cb_of_event (replay_opts o [] None leak_tasks)).
 Proof. exact leaky_exit_refuted. Qed.
 Print Assumptions C18_leaky_exit_refuted.
+
+(* Record time (-S): for EVERY configuration - trace_on / trace_off triggers and --trace=off included - both
+   instrumentation shapes, any thread state and any complete call forest, the entry/exit callbacks the script hooks
+   deliver are properly paired ([bal]: a stack machine over the callbacks ends with the stack it started with).
+   Model: libmcount's hook automaton (UV.Mcount.Model, tied to the real libmcount by C02/C05/C17) plus the placement
+   of script_hook_entry / script_hook_exit as in libmcount/mcount.c after fix 3895699. *)
+Theorem C18_record_time_callbacks_paired : forall c f s hk,
+  ScriptCb.bal [] (ScriptCb.cbs true c (Forest.flat_forest f) (s, hk)) = Some [].
+Proof. exact ScriptCb.forest_callbacks_paired. Qed.
+Print Assumptions C18_record_time_callbacks_paired.
+
+(* the code as found (entry callback for every recordable frame, exit callback only while tracing is on): a call
+   entered before a trace_off trigger never gets its exit callback *)
+Theorem C18_record_time_legacy_refuted :
+  ScriptCb.bal [] (ScriptCb.cbs false ScriptCb.sw_cfg ScriptCb.sw_events (Mcount.Model.init, [])) = Some [2; 1] /\
+  ScriptCb.bal [] (ScriptCb.cbs true ScriptCb.sw_cfg ScriptCb.sw_events (Mcount.Model.init, [])) = Some [].
+Proof. exact ScriptCb.legacy_unpaired. Qed.
+Print Assumptions C18_record_time_legacy_refuted.
